@@ -432,3 +432,257 @@ Section Integrity.
     unfold verify_metadata. intros [[E1 E2]|[E1 E2]]; destruct (m_an m), (m_at m); congruence.
   Qed.
 End Integrity.
+
+(* ------------------------------------------------------------------ get_ranges *)
+Lemma span_bounds c s e size :
+  0 < c -> s < e -> e <= size -> size < two64 ->
+  s / c * c <= s /\ e <= N.min (checked_mul_or_max (N.min ((e - 1) / c + 1) u64max) c) size.
+Proof.
+  intros Hc Hse Hes Hsz. split.
+  - rewrite N.mul_comm. apply N.mul_div_le. lia.
+  - assert (He : e <= ((e - 1) / c + 1) * c).
+    { pose proof (N.div_mod (e - 1) c ltac:(lia)). pose proof (N.mod_lt (e - 1) c ltac:(lia)). nia. }
+    assert (Hq : (e - 1) / c + 1 <= u64max).
+    { assert ((e - 1) / c <= e - 1) by (apply N.div_le_upper_bound; nia). unfold u64max, two64 in *. lia. }
+    rewrite (N.min_l _ _ Hq).
+    unfold checked_mul_or_max. destruct (two64 <=? ((e - 1) / c + 1) * c); unfold u64max, two64 in *; lia.
+Qed.
+
+Section SpanCorrect.
+  Variable open : bytes -> bytes -> bytes -> bytes -> option bytes.
+  Variables (m : meta) (pt : bytes) (c : N).
+  Hypothesis c_pos : 0 < c.
+  Hypothesis Dok : forall idx ct p, open_chunk open m c idx ct = Some p -> p = chunkN c pt idx.
+
+  Lemma chunk_glue idx K :
+    (idx + 1) * c <= K ->
+    chunkN c pt idx ++ dropN ((idx + 1) * c) (takeN K pt) = dropN (idx * c) (takeN K pt).
+  Proof.
+    intros HK. unfold chunkN. rewrite takeN_dropN_comm.
+    set (A := takeN K pt).
+    replace (takeN (idx * c + c) pt) with (takeN ((idx + 1) * c) A)
+      by (unfold A; rewrite takeN_takeN by lia; f_equal; lia).
+    rewrite <- (takeN_dropN_id ((idx + 1) * c) A) at 3.
+    rewrite dropN_app. f_equal. rewrite lenN_takeN.
+    destruct (N.le_gt_cases ((idx + 1) * c) (lenN A)).
+    - replace (idx * c - N.min ((idx + 1) * c) (lenN A)) with 0 by lia. reflexivity.
+    - rewrite (dropN_all ((idx + 1) * c) A) by lia. now rewrite dropN_nil.
+  Qed.
+
+  Lemma span_ok fuel : forall idx data out,
+    decrypt_span open fuel m c idx data = Some out ->
+    exists k, out = dropN (idx * c) (takeN ((idx + k) * c) pt) /\ lenN data <= k * c.
+  Proof.
+    induction fuel; intros idx data out D; cbn [decrypt_span] in D; [discriminate|].
+    destruct data as [|b data'].
+    - inversion D; subst. exists 0. split; [|unfold lenN; cbn; lia].
+      symmetry. apply dropN_all. rewrite lenN_takeN. lia.
+    - cbv beta iota zeta in D. set (data := b :: data') in *.
+      match type of D with context[open_chunk ?a1 ?a2 ?a3 ?a4 ?a5] => destruct (open_chunk a1 a2 a3 a4 a5) as [p|] eqn:O; [|discriminate] end.
+      apply Dok in O. subst p.
+      match type of D with context[decrypt_span ?a1 ?a2 ?a3 ?a4 ?a5 ?a6] => destruct (decrypt_span a1 a2 a3 a4 a5 a6) as [ps|] eqn:R; [|discriminate] end.
+      inversion D; subst out. apply IHfuel in R. destruct R as (k & -> & Hk).
+      exists (k + 1). split.
+      + replace ((idx + (k + 1)) * c) with ((idx + 1 + k) * c) by lia.
+        apply chunk_glue. lia.
+      + destruct (c <=? lenN data) eqn:E.
+        * apply N.leb_le in E. rewrite lenN_dropN in Hk. lia.
+        * apply N.leb_gt in E. lia.
+  Qed.
+
+  Definition want (r : N * N) : bytes := takeN (snd r - fst r) (dropN (fst r) pt).
+
+  Lemma slice_ok cs0 K start end_ :
+    cs0 <= start -> start <= end_ -> end_ <= K ->
+    takeN (end_ - cs0 - (start - cs0)) (dropN (start - cs0) (dropN cs0 (takeN K pt))) = want (start, end_).
+  Proof.
+    intros H1 H2 H3. unfold want. cbn [fst snd].
+    rewrite dropN_dropN. replace (start - cs0 + cs0) with start by lia.
+    replace (end_ - cs0 - (start - cs0)) with (end_ - start) by lia.
+    rewrite !takeN_dropN_comm. replace (start + (end_ - start)) with end_ by lia.
+    now rewrite takeN_takeN by lia.
+  Qed.
+
+  Lemma ranges_ok fetch : m_size m < two64 ->
+    forall rs cspan cached outs,
+    validate_ranges rs (m_size m) = true ->
+    (exists K, cached = dropN (fst cspan) (takeN K pt) /\ snd cspan <= K) ->
+    ranges_loop open m c fetch rs cspan cached = Some outs ->
+    outs = map want rs.
+  Proof.
+    intros Hsz. set (size := m_size m) in *.
+    induction rs as [|[start end_] rs IH]; intros cspan cached outs V I L; cbn [ranges_loop] in L.
+    - now inversion L.
+    - cbn [validate_ranges] in V.
+      destruct (size <=? start) eqn:V1; [discriminate|]. destruct (end_ <=? start) eqn:V2; [discriminate|].
+      destruct (size <? end_) eqn:V3; [discriminate|].
+      apply N.leb_gt in V1. apply N.leb_gt in V2. apply N.ltb_ge in V3.
+      fold size in L.
+      match type of L with (match ?x with _ => _ end = _) => destruct x as [[cspan' cached']|] eqn:Rf; [|discriminate] end.
+      assert (I' : (exists K, cached' = dropN (fst cspan') (takeN K pt) /\ snd cspan' <= K) /\ fst cspan' <= start /\ end_ <= snd cspan').
+      { destruct (negb ((start <? fst cspan) || (snd cspan <? end_))) eqn:Hit.
+        - inversion Rf; subst. split; auto.
+          apply negb_true_iff, orb_false_iff in Hit. destruct Hit as [A B].
+          apply N.ltb_ge in A. apply N.ltb_ge in B. lia.
+        - destruct (fetch (Some (start / c * c, N.min (checked_mul_or_max (N.min ((end_ - 1) / c + 1) u64max) c) size))) as [data|]; [|discriminate].
+          destruct (negb (lenN data =? N.min (checked_mul_or_max (N.min ((end_ - 1) / c + 1) u64max) c) size - start / c * c)) eqn:Ln; [discriminate|].
+          apply negb_false_iff, N.eqb_eq in Ln.
+          destruct (decrypt_span open (S (length data)) m c (start / c) data) as [ptx|] eqn:Ds; [|discriminate].
+          inversion Rf; subst. cbn [fst snd].
+          apply span_ok in Ds. destruct Ds as (k & -> & Hk).
+          destruct (span_bounds c start end_ size c_pos ltac:(lia) V3 Hsz) as [Hs Hx].
+          split; [| split; [exact Hs | exact Hx]].
+          exists ((start / c + k) * c). split; [reflexivity|]. lia. }
+      destruct I' as (I1 & I2 & I3).
+      destruct (ranges_loop open m c fetch rs cspan' cached') as [out|] eqn:Rl; [|discriminate].
+      inversion L; subst outs. cbn [map]. f_equal.
+      + destruct I1 as (K & -> & HK). apply slice_ok; lia.
+      + eapply IH; eauto.
+  Qed.
+End SpanCorrect.
+
+Section RangesIntegrity.
+  Variable open : bytes -> bytes -> bytes -> bytes -> option bytes.
+  Variable H : list hcommit.
+  Hypothesis H_wf : forall h, In h H -> honest_wf h.
+  Hypothesis ideal_aead : forall n a c t p, open n a c t = Some p -> honest_seal H n a p c t.
+  Hypothesis nonce_once : forall n a p c t a' p' c' t',
+      honest_seal H n a p c t -> honest_seal H n a' p' c' t' -> p = p'.
+
+  Lemma legacy_span_dead m cs fuel idx data :
+    m_an m = None -> m_at m = None -> m_av m = None -> data <> [] ->
+    decrypt_span open (S fuel) m cs idx data = None.
+  Proof.
+    intros E1 E2 E3 Hd. cbn [decrypt_span]. destruct data; [congruence|].
+    now rewrite (legacy_chunks_dead open H ideal_aead m cs E1 E2 E3).
+  Qed.
+
+  Lemma get_ranges_cons strict store_cs loc m fetch r rs :
+    get_ranges open strict store_cs loc m fetch (r :: rs) =
+    match verify_metadata open strict loc m with
+    | VErr => None
+    | _ => if validate_ranges (r :: rs) (m_size m)
+           then ranges_loop open m (read_chunk_size store_cs m) fetch (r :: rs) (0, 0) [] else None
+    end.
+  Proof. reflexivity. Qed.
+
+  Theorem get_ranges_integrity strict store_cs loc m fetch rs outs :
+    wf_meta m -> lenN loc < two64 -> 0 < store_cs ->
+    get_ranges open strict store_cs loc m fetch rs = Some outs ->
+    rs = [] \/
+    exists h, In h H /\ h_loc h = loc /\
+      Forall (fun r => fst r < snd r /\ snd r <= lenN (h_pt h)) rs /\
+      outs = map (fun r => takeN (snd r - fst r) (dropN (fst r) (h_pt h))) rs.
+  Proof.
+    intros Wm Wl Hcs G. destruct rs as [|r0 rs0]; [now left|]. right.
+    rewrite get_ranges_cons in G. set (rs := r0 :: rs0) in *.
+    destruct (verify_metadata open strict loc m) eqn:V; [| |discriminate].
+    - destruct (verify_auth open H H_wf ideal_aead strict loc m Wm Wl V) as (h & Hin & Ev).
+      destruct (auth_chunks_honest open H H_wf ideal_aead nonce_once loc m h store_cs Hin Ev) as (c & Ec & Cb & Rc & Dok).
+      pose proof (H_wf h Hin) as [_ _ _ _ Wsz _].
+      assert (Es : m_size m = lenN (h_pt h)) by (unfold auth_view in Ev; inversion Ev; congruence).
+      assert (El : loc = h_loc h) by (unfold auth_view in Ev; now inversion Ev).
+      rewrite Rc in G.
+      destruct (validate_ranges rs (m_size m)) eqn:Vr; [|discriminate].
+      exists h. split; auto. split; auto. split.
+      + clear G. rewrite Es in Vr. revert Vr. generalize rs. induction rs1 as [|[s e] rs1 IH]; cbn [validate_ranges]; intros Vr; constructor.
+        * cbn [fst snd]. destruct (lenN (h_pt h) <=? s) eqn:A; [discriminate|]. destruct (e <=? s) eqn:B; [discriminate|].
+          destruct (lenN (h_pt h) <? e) eqn:C; [discriminate|].
+          apply N.leb_gt in B. apply N.ltb_ge in C. lia.
+        * destruct (lenN (h_pt h) <=? s); [discriminate|]. destruct (e <=? s); [discriminate|].
+          destruct (lenN (h_pt h) <? e); [discriminate|]. auto.
+      + pose proof (ranges_ok open m (h_pt h) c ltac:(lia) Dok fetch (wf_size m Wm) rs (0, 0) [] outs Vr) as R.
+        specialize (R ltac:(exists 0; split; [reflexivity | cbn; lia]) G).
+        rewrite R. apply map_ext. intros [s e]. reflexivity.
+    - (* legacy: the first range needs a chunk to open, and none does *)
+      exfalso. destruct (verify_legacy open strict loc m V) as (Hs & E1 & E2 & E3 & E4).
+      destruct (validate_ranges rs (m_size m)) eqn:Vr; [|discriminate].
+      unfold rs in G, Vr. destruct r0 as [s e]. cbn [ranges_loop validate_ranges] in G, Vr.
+      destruct (m_size m <=? s) eqn:A; [discriminate|]. destruct (e <=? s) eqn:B; [discriminate|].
+      destruct (m_size m <? e) eqn:C; [discriminate|].
+      apply N.leb_gt in A. apply N.leb_gt in B. apply N.ltb_ge in C.
+      cbn [fst snd] in G.
+      replace (negb ((s <? 0) || (0 <? e))) with false in G
+        by (symmetry; apply negb_false_iff, orb_true_iff; right; apply N.ltb_lt; lia).
+      set (cs := read_chunk_size store_cs m) in *.
+      match type of G with context[fetch ?x] => destruct (fetch x) as [data|]; [|discriminate] end.
+      match type of G with context[negb (lenN data =? ?d)] => destruct (negb (lenN data =? d)) eqn:Ln; [discriminate|];
+         apply negb_false_iff, N.eqb_eq in Ln; assert (Hpos : 0 < d) end.
+      { assert (cs_pos : 0 < cs).
+        { unfold cs, read_chunk_size. destruct (m_cs m) as [c0|]; [|lia].
+          destruct (0 <? c0); [unfold normalize_chunk_size; lia | lia]. }
+        destruct (span_bounds cs s e (m_size m) cs_pos B C (wf_size m Wm)). lia. }
+      rewrite legacy_span_dead in G; auto; try discriminate.
+      intros ->. unfold lenN in Ln. cbn in Ln. lia.
+  Qed.
+End RangesIntegrity.
+
+(* ------------------------------------------------------------------ copy / rename as read paths of the source *)
+Section CopyIntegrity.
+  Variable open : bytes -> bytes -> bytes -> bytes -> option bytes.
+  Variable H : list hcommit.
+  Hypothesis H_wf : forall h, In h H -> honest_wf h.
+  Hypothesis ideal_aead : forall n a c t p, open n a c t = Some p -> honest_seal H n a p c t.
+
+  (* whatever the handle's cache holds and whatever the backend holds, the document copy_opts reseals
+     for the target passed verify_metadata in the loop iteration that used it *)
+  Theorem copy_source_integrity strict loc cached backend has_payload m :
+    (forall m', cached = DDoc m' -> wf_meta m') -> (forall m', backend = DDoc m' -> wf_meta m') ->
+    lenN loc < two64 ->
+    copy_source open strict loc cached backend has_payload = Some m ->
+    has_payload m = true /\
+    ((exists h, In h H /\ auth_view loc m = auth_view (h_loc h) (h_meta h))
+     \/ (strict = false /\ m_an m = None /\ m_at m = None /\ m_av m = None /\ m_gen m = None)).
+  Proof.
+    intros Wc Wb Wl C. unfold copy_source in C.
+    assert (K : forall d, (forall m', d = DDoc m' -> wf_meta m') -> forall x,
+                d = DDoc x -> verify_metadata open strict loc x <> VErr ->
+                ((exists h, In h H /\ auth_view loc x = auth_view (h_loc h) (h_meta h))
+                 \/ (strict = false /\ m_an x = None /\ m_at x = None /\ m_av x = None /\ m_gen x = None))).
+    { intros d Wd x Ed V. destruct (verify_metadata open strict loc x) eqn:E; [| |congruence].
+      - left. eapply verify_auth; eauto.
+      - right. now apply (verify_legacy open strict loc x). }
+    assert (K2 : forall m2, backend = DDoc m2 ->
+               match verify_metadata open strict loc m2 with
+               | VErr => None | _ => if has_payload m2 then Some m2 else None end = Some m ->
+               has_payload m = true /\
+               ((exists h, In h H /\ auth_view loc m = auth_view (h_loc h) (h_meta h))
+                \/ (strict = false /\ m_an m = None /\ m_at m = None /\ m_av m = None /\ m_gen m = None))).
+    { intros m2 Eb C2. destruct (verify_metadata open strict loc m2) eqn:V2; try discriminate;
+        (destruct (has_payload m2) eqn:P2; [|discriminate]); inversion C2; subst m2; split; auto;
+        apply (K backend Wb m Eb); congruence. }
+    destruct cached as [| |mc].
+    - destruct backend as [| |mb]; try discriminate.
+      destruct (verify_metadata open strict loc mb) eqn:V; try discriminate;
+        (destruct (has_payload mb) eqn:P; [inversion C; subst; split; auto; apply (K (DDoc m) Wb m eq_refl); congruence
+                                          | first [discriminate | apply (K2 mb eq_refl); exact C]]).
+    - destruct backend as [| |mb]; try discriminate.
+      destruct (verify_metadata open strict loc mb) eqn:V; try discriminate;
+        (destruct (has_payload mb) eqn:P; [inversion C; subst; split; auto; apply (K (DDoc m) Wb m eq_refl); congruence
+                                          | first [discriminate | apply (K2 mb eq_refl); exact C]]).
+    - destruct (verify_metadata open strict loc mc) eqn:V; try discriminate;
+        (destruct (has_payload mc) eqn:P;
+         [inversion C; subst; split; auto; apply (K (DDoc m) Wc m eq_refl); congruence
+         | destruct backend as [| |mb]; try discriminate; apply (K2 mb eq_refl); exact C]).
+  Qed.
+
+  (* resealing an authenticated source for the target yields an honest commit of the same plaintext
+     whose chunk seals are exactly the source's: no new chunk seal, same nonce, tags and chunk size *)
+  Theorem copy_commit_honest seal loc m h to an gen etag ms :
+    honest_wf h -> auth_view loc m = auth_view (h_loc h) (h_meta h) ->
+    lenN to < two64 -> lenN etag < two64 -> lenN gen < two64 -> ms < two64 ->
+    let m' := copy_meta seal m to an gen etag ms CHUNK_AAD_BOUND in
+    honest_wf (mkCommit to m' (h_pt h) (h_cts h)) /\
+    m_nonce m' = m_nonce (h_meta h) /\ m_tags m' = m_tags (h_meta h) /\ m_cs m' = m_cs (h_meta h) /\
+    m_size m' = lenN (h_pt h) /\ m_gen m' = Some gen /\ m_an m' = Some an.
+  Proof.
+    intros [Wm Wl Wav Wcs Wsz Wct] Ev Ht He Hg Hm. cbv zeta.
+    unfold auth_view in Ev. inversion Ev as [[El Es Ee Eo Ev' En Ec Ea Et Eg Em]].
+    destruct Wm. unfold copy_meta.
+    split; [|cbn; repeat split; congruence].
+    constructor; cbn [h_meta h_loc h_pt h_cts m_size m_etag m_otag m_over m_nonce m_tags m_cs m_av m_an m_at m_gen m_ms]; auto; try congruence.
+    constructor; cbn [m_size m_etag m_otag m_over m_nonce m_tags m_cs m_av m_an m_at m_gen m_ms wf_ob wf_oN]; auto; try congruence.
+    all: try (destruct Wcs as (c & Hc & Hb); exists c; split; [congruence | auto]).
+    all: try reflexivity.
+  Qed.
+End CopyIntegrity.
